@@ -30,10 +30,20 @@ RULE = ('cases = (sorted existing positions, batch of requested positions) as 64
         'BulkUpdateRecord of manualSort to another row\'s position) into a spot crowded by ~40-160 inserts above one row: '
         'each moved row must land immediately before the row whose position was requested, the others keep their order. '
         'The order "position adjustments first, then the rows\' own action" in useractions.doBulkAddOrReplace / '
-        'doBulkUpdateRecord is pinned on the AST.')
-TRUSTED = ['Model/Relabel.v: hand-written Gallina model of relabeling.py (prepare_inserts, ListWithAdjustments, '
-           '_group_insertions/ungroup, get_range, range_around_float) and of sortedcontainers as sorted lists; '
-           'compared bit for bit with the implementation on every run',
+        'doBulkUpdateRecord is pinned on the AST. Code tie: coq/gen/Relabel_gen.v is regenerated from relabeling.py on every '
+        'run and proved pointwise equal to the model (an edit that changes what is computed breaks a C20_bridge_* proof); '
+        'the translator is validated on recorded calls of every translated function (state before, arguments, result / state '
+        'after / exception site); untranslated glue is pinned by AST hash.')
+TRUSTED = ['harness/relabel2v.py: the translator that rewrites the deciding code of relabeling.py (get_range, '
+           '_adj_bisect_key_left, _adj_get_key, count_range, _adjust_range, _adjust_all, _find_sparse_enough_range with its '
+           'thresholds, prep_inserts_at_index, range_around_float, prepare_inserts) into coq/gen/Relabel_gen.v on every run; '
+           'fail-closed (anything outside its subset is TieBroken) and validated each run: calls recorded in the running '
+           'implementation are evaluated on the generated definitions by vm_compute; every generated function is PROVED '
+           'equal to the model function (Props/C20: C20_bridge_*)',
+           'Model/Relabel.v: hand-written Gallina model of sortedcontainers as sorted lists and of the untranslated glue '
+           '(_do_adjust_range, _group_insertions/ungroup, is_valid_range/all_distinct, prevfloat/nextfloat, the constructor '
+           'and getters; column.py PositionColumn): pinned by AST hash, compared bit for bit with the implementation on every run',
+           'Model/RelabelFrexp.v: math.frexp / math.ldexp / math.floor on the integer model, compared with CPython on every run',
            'Lib/Fl64.v: IEEE binary64 (round to nearest even) as exact integer arithmetic in units of 2^-1074; each '
            'primitive (+ - * / int->float prevfloat nextfloat < <= == frexp/floor/ldexp) compared with CPython on '
            'every run',
@@ -63,7 +73,9 @@ LEVEL_TEXT = ('Kernel-checked for all inputs: soundness of the result checker w.
               'a range by level 55, _adjust_range / _adj_get_key / the final assert followed step by step; partial '
               'correctness for one gap anywhere; exactness of _adj_bisect_key_left under its precise side condition; '
               'refutation of the unrestricted total statement by three concrete inputs; regression examples for the two '
-              'repaired defects.')
+              'repaired defects. CODE TIE: each function regenerated from relabeling.py is proved equal to the model function for '
+              'all arguments (range_around_float: for every non-negative double and level 0..63, via frexp/ldexp/floor), and '
+              'the main theorems are restated about the generated prepare_inserts (C20_code_*).')
 LEVEL_NOTE = ('The total-correctness statement for valid positions and SEVERAL gaps in one call stays a Definition '
               '(C20_total_restricted_stmt, no counterexample known on the repaired code): with several groups the later '
               'groups see adjusted rows, and the invariant that keeps _adj_bisect_key_left exact there (a dyadic-block '
